@@ -86,11 +86,32 @@ class MLock:
         self.owner = None
         return False
 
+    # the same lock used through its method interface (try/finally style code)
+    def acquire(self, block=True, timeout=None):
+        if not block:
+            self.C.point(("acq", self.name))
+            if self.owner is None:
+                t = self.C.tid()
+                self.owner = "free-thread" if t is None else t
+                return True
+            return False
+        if self.C.tid() is None and self.owner is not None:
+            raise RuntimeError(f"lock {self.name} is held by {self.owner} and nobody is left to release it")
+        self.__enter__()
+        return True
+
+    def release(self):
+        self.__exit__(None, None, None)
+
 
 class Harness:
     """one output path in a scratch directory; sessions of constructor + threads driven step by step"""
 
-    def __init__(self, workdir, out_name="out.tsv"):
+    def __init__(self, workdir, out_name="out.tsv", split_rows=False):
+        # split_rows: a row appended to the output file reaches the disk in two halves with a scheduling point in between
+        # (what a large row, a slow disk or a signal does to one write call), so that readers can run in the middle
+        self.split_rows = split_rows
+        self.stat_snaps = []
         self.C = Controller()
         self.dir = workdir
         self.out = os.path.join(workdir, out_name)
@@ -132,16 +153,55 @@ class Harness:
                 return os.remove(p)
         PA.os = OsProxy()
 
+        class SplitFile:
+            """collects what is written and puts it on disk in two halves when closed"""
+            def __init__(s, real):
+                s.real, s.parts = real, []
+
+            def write(s, x):
+                s.parts.append(x)
+                return len(x)
+
+            def __enter__(s):
+                return s
+
+            def __exit__(s, *a):
+                s.close()
+                return False
+
+            def __getattr__(s, n):
+                return getattr(s.real, n)
+
+            def close(s):
+                data = "".join(s.parts)
+                s.parts = []
+                h = len(data) // 2
+                s.real.write(data[:h])
+                s.real.flush()
+                if data:
+                    C.point(("write2", "out"))
+                s.real.write(data[h:])
+                s.real.close()
+
         def wopen(file, *a, **k):
             if not getattr(H.inhelper, "flag", False) and C.tid() is not None:
                 C.point(("touch", H.which(file)))
-            return builtins.open(file, *a, **k)
+            f = builtins.open(file, *a, **k)
+            mode = a[0] if a else k.get("mode", "r")
+            if H.split_rows and getattr(H.inhelper, "flag", False) and C.tid() is not None and H.which(file) == "out" and "a" in mode:
+                return SplitFile(f)
+            return f
         PA.open = wopen
 
         class StatProxy:
             @staticmethod
             def from_file(f):
                 C.point(("stat", H.which(f)))
+                try:
+                    with builtins.open(f, encoding="utf8", newline="") as fh:
+                        H.stat_snaps.append(fh.read())
+                except OSError:
+                    H.stat_snaps.append(None)
                 return _REAL["Panoptica_Statistic"].from_file(f)
         PA.Panoptica_Statistic = StatProxy
 
